@@ -87,6 +87,9 @@ pub struct Profile {
     pub w_delay: [u32; 4],
     /// probability (in quarters) that a configuration injects delays
     pub delay_quarters: usize,
+    /// probability (in quarters) that a loop body starts with a join of the loop stream with a
+    /// state-dependent part of itself (the join inputs change from round to round)
+    pub join_in_loop_quarters: usize,
 }
 
 impl Profile {
@@ -115,6 +118,7 @@ impl Profile {
             small_batches: false,
             w_delay: [3, 3, 3, 2],
             delay_quarters: 2,
+            join_in_loop_quarters: 0,
         }
     }
 }
@@ -378,7 +382,27 @@ impl<'a, 'p> Gen<'a, 'p> {
         let body_budget = 1 + self.ch.below(4);
         let saved = self.budget;
         self.budget = body_budget.min(saved.max(1));
-        let (mut body, bst) = if iterate && self.ch.flag(1, 3) {
+        let (mut body, bst) = if self.p.join_in_loop_quarters > 0 && self.ch.flag(self.p.join_in_loop_quarters, 4) && st.bound <= 400 {
+            // a body whose join inputs differ in every round
+            let kind = [JoinKind::Inner, JoinKind::Left, JoinKind::Outer][self.ch.weighted(&[1, 2, 3])];
+            let algo = [JoinAlgo::Shortcut, JoinAlgo::HashHash, JoinAlgo::HashSortMerge, JoinAlgo::BcHash, JoinAlgo::BcSortMerge, JoinAlgo::Keyed]
+                [self.ch.weighted(&[1, 2, 4, 1, 2, 1])];
+            let k = [3i64, 7, 16, 64][self.ch.below(4)];
+            let m = [3i64, 5, 8][self.ch.below(3)];
+            let (l, r) = if self.ch.flag(1, 2) {
+                (vec![Stage::Filter(FilterFn::StateMod(m))], vec![])
+            } else {
+                (vec![], vec![Stage::Filter(FilterFn::StateMod(m))])
+            };
+            let mut b = vec![Stage::Diamond { left: l, right: r, comb: Combine::Join(kind, algo, k) }, Stage::Map(MapFn::Rem(1000))];
+            if iterate {
+                b.push(Stage::Shuffle);
+            }
+            let mut bs = body_st;
+            // a self join on k keys: at most |in|^2 / 1, kept small by the bound above
+            bs.bound = bs.bound.saturating_mul(bs.bound.max(1)).min(CAP);
+            (b, bs)
+        } else if iterate && self.ch.flag(1, 3) {
             // a body chained entirely in the `Iterate` block (no block on the cycle runs at its own
             // pace): the shape for which small batches are not excluded by the known finding F7
             let n = 1 + self.ch.below(3);
